@@ -39,7 +39,36 @@ MUTANTS = [
     ('nonconv-always', M, "if status == SolutionStatus.FAILED.value and failures == 'raise':", "if status == SolutionStatus.FAILED.value and failures != 'ignore_':", ['C02']),
     ('after-hook-twice', M, "                status = SolutionStatus.SOLVED.value\n                break", "                status = SolutionStatus.SOLVED.value\n                self.solve_t_after(t, errors=errors, catch_first_error=catch_first_error, iteration=iteration, **kwargs)\n                break", ['C02']),
     ('precheck-any-errors', M, "if errors == 'raise' and np.any(~np.isfinite(current_values)):", "if errors in ('raise', 'skip') and np.any(~np.isfinite(current_values)):", ['C06', 'C02']),
+    # --- multi-period solve (C05)
+    ('default-end-off-by-one', I, "            end = self.span[-1 - self.leads]", "            end = self.span[-2 - self.leads] if self.leads else self.span[-1]", ['C05']),
+    ('solve-swallows-keyerror', I, "            raise KeyError(end)", "            end = None", ['C05']),
+    ('solve-stops-after-skip', I, "            solved[i] = self.solve_t(", "            if i and solved[i - 1] is False and errors == 'skip':\n                break\n            solved[i] = self.solve_t(", ['C05']),
+    # --- linker (C08)
+    ('linker-stamp-all', K, "        for name in submodels:\n            submodel = self.__dict__['submodels'][name]\n            submodel.status[t] = status", "        for name in self.__dict__['submodels']:\n            submodel = self.__dict__['submodels'][name]\n            submodel.status[t] = status", ['C08']),
+    ('linker-order-sorted', K, "        for name in submodels:\n            submodel = self.__dict__['submodels'][name]\n\n            with warnings.catch_warnings(record=True):", "        for name in sorted(submodels, key=str):\n            submodel = self.__dict__['submodels'][name]\n\n            with warnings.catch_warnings(record=True):", ['C08']),
+    ('linker-lags-min', K, "                lags =  max(lags, comparator.LAGS)", "                lags =  min(lags, comparator.LAGS)", ['C08']),
+    ('linker-miniter-le', K, "            if iteration < min_iter:\n                continue\n\n            diff = {k:", "            if iteration <= min_iter:\n                continue\n\n            diff = {k:", ['C08']),
+    # --- tracer (C17)
+    ('tracer-evaluates-twice', X, "        super()._evaluate(\n            t, *args, trace=trace, reset=reset, iteration=iteration, **kwargs\n        )", "        super()._evaluate(\n            t, *args, trace=trace, reset=reset, iteration=iteration, **kwargs\n        )\n        if trace and iteration == 2:\n            super()._evaluate(t, *args, trace=trace, reset=reset, iteration=iteration, **kwargs)", ['C17']),
+    ('tracer-label-offbyone', X, "            self.trace_t(t, iteration, *args, trace=trace, reset=reset, **kwargs)", "            self.trace_t(t, iteration - 1, *args, trace=trace, reset=reset, **kwargs)", ['C17']),
+    # --- parser / generated code (C01, C03, C14, C15, C20)
+    ('term-lead-sign', P, "                index = f'[t+{self.index_}]'", "                index = f'[t-{self.index_}]'", ['C01']),
+    ('lags-leads-minmax-swapped', P, "        lags = resolve_by_type_pair(self.lags, other.lags, min)\n        leads = resolve_by_type_pair(self.leads, other.leads, max)", "        lags = resolve_by_type_pair(self.lags, other.lags, max)\n        leads = resolve_by_type_pair(self.leads, other.leads, min)", ['C03']),
+    ('untyped-template-lags-leads-swapped', P, "    LAGS = {lags}\n    LEADS = {leads}\n\n    def solve_t_before(self, t, *, errors='raise'", "    LAGS = {leads}\n    LEADS = {lags}\n\n    def solve_t_before(self, t, *, errors='raise'", ['C15']),
+    ('log-replaced-by-log10', P, "    'log': 'np.log',", "    'log': 'np.log10',", ['C01']),
+    ('whitespace-collapse-removes-all', P, "    template = re.sub(r'\\s+',   ' ', template)  # Remove repeated whitespace", "    template = re.sub(r'\\s+',   '', template)  # Remove repeated whitespace", ['C14']),
+    ('graph-edges-reversed', T, "                G.add_edge(x, n)", "                G.add_edge(n, x)", ['C20']),
+    # --- time-series helpers / eval (C16)
+    ('shift-sign', F, "    shifted = np.roll(x, shift=p)", "    shifted = np.roll(x, shift=-p)", ['C16']),
+    ('eval-builtins-not-copied', C, "            builtins = copy.deepcopy(_builtins)", "            builtins = _builtins", ['C16']),
+    # --- containers
+    ('stop-location-not-extended', C, "            stop_location += 1", "            stop_location += 0", ['C10']),
+    ('copy-shallow', C, "        copied.__dict__.update({k: copy.deepcopy(v) for k, v in self.__dict__.items()})", "        copied.__dict__.update({k: copy.copy(v) for k, v in self.__dict__.items()})", ['C11']),
+    ('names-not-copied', I, "        names = copy.deepcopy(self.NAMES)", "        names = self.NAMES", ['C11']),
+    # --- aliases
+    ('alias-one-level', A, "            aliases = {k: aliases.get(v, v) for k, v in aliases.items()}", "            aliases = {k: aliases.get(v, v) for k, v in aliases.items()}\n            break", ['C18']),
 ]
+
 
 
 def run(cmd, env=None, cwd=None, timeout=3600):
